@@ -420,7 +420,18 @@ def into_iter(I, v):
     raise Unsupported('into_iter on %r' % (v,))
 
 
+ORDER_HOOK = [None]      # models_env: iteration order of std hash containers under the two-environment harness
+
+
 def map_iter(m, by_ref):
+    if ORDER_HOOK[0] is not None and m.kind in ('HashMap', 'HashSet') and len(m.entries) >= 2:
+        perm = ORDER_HOOK[0](m)
+        if perm is not None:
+            m2 = MapObj([m.entries[i] for i in perm], m.kind)
+            if by_ref and m.kind == 'HashMap':
+                # values stay addressable in the original map
+                return ListIter([Tuple(ValPtr(m.entries[i][0]), EntryValPtr(m, m.entries[i][0])) for i in perm], kind='map::Iter')
+            m = m2
     if m.kind in ('HashSet', 'BTreeSet', 'IndexSet'):
         if by_ref:
             return ListIter([ValPtr(k) for k, _ in m.entries], kind='set::Iter')
